@@ -68,6 +68,9 @@ type ConnCase struct {
 // (quiescence).
 type Step struct {
 	Msgs []pgwire.FMsg `json:"msgs"`
+	// IdleMs is simulated time (milliseconds of the bubble's fake clock) the
+	// client lets pass before it sends this step.
+	IdleMs int `json:"idle_ms,omitempty"`
 }
 
 // Fault kinds: read-err (At = index of the Read call), eof-at-byte (At = input
